@@ -116,7 +116,7 @@ structure CX (s : State) : Prop where
 
 theorem cx_init : CX init := by constructor <;> simp [init, Call.none]
 
-theorem cx_step (sk : Skeleton) (ho : sk.bcReceiveErrorsOnlyClosed = true) {s s' : State} (a : Act)
+theorem cx_step (sk : Skeleton) (ho : sk.bcReceiveErrorsOnlyClosed = true) (hp : sk.panicSitesCanonical = true) {s s' : State} (a : Act)
     (h : CX s) (hs : step sk s a = some s') : CX s' := by
   obtain ⟨h1, h2, h3, h4, h5, h6, h7, h8, h9⟩ := h
   cases a <;> simp only [step] at hs
@@ -129,10 +129,10 @@ theorem cx_step (sk : Skeleton) (ho : sk.bcReceiveErrorsOnlyClosed = true) {s s'
 
 /-! ### general lemmas: reachability → invariants -/
 
-theorem reach_cx (sk : Skeleton) (ho : sk.bcReceiveErrorsOnlyClosed = true) {s : State} (h : Reach sk s) : CX s := by
+theorem reach_cx (sk : Skeleton) (ho : sk.bcReceiveErrorsOnlyClosed = true) (hp : sk.panicSitesCanonical = true) {s : State} (h : Reach sk s) : CX s := by
   induction h with
   | init => exact cx_init
-  | step a _ hs ih => exact cx_step sk ho a ih hs
+  | step a _ hs ih => exact cx_step sk ho hp a ih hs
 
 theorem reach_fi (sk : Skeleton) (hf : FirstOnly sk) {s : State} (h : Reach sk s) : FI s := by
   induction h with
